@@ -93,9 +93,9 @@ pub trait Visitable : GraphBase {
         spec fn is_nid(&self, a: Self::NodeId) -> bool;
         spec fn nbound(&self) -> usize;
         spec fn ix_of(&self, a: Self::NodeId) -> usize;
-        /// distinct nodes have distinct indices
+        /// a node's index belongs to no other identifier (in particular distinct nodes have distinct indices)
         proof fn ix_inj_law(&self, a: Self::NodeId, b: Self::NodeId)
-            requires self.is_nid(a), self.is_nid(b), self.ix_of(a) == self.ix_of(b)
+            requires self.is_nid(a), self.ix_of(a) == self.ix_of(b)
             ensures a == b;
         /*-*/
         /// Return an upper bound of the node indices in the graph
